@@ -108,6 +108,15 @@ func c09History(c *rt.Ctx, fsType string, h int) {
 		cwd, _ := ref.Getwd()
 		g.Observe(s.Recs, cwd)
 		o := g.Next()
+		if mutatingKind(o) && r.IntN(4) == 0 {
+			// "no change" arguments: zero times, current size, current mode, owner -1/-1, empty data
+			var size int64
+			var mode uint32
+			if fi, err := ref.Stat(o.P); err == nil {
+				size, mode = fi.Size(), uint32(fi.Mode().Perm())
+			}
+			o = gen.Degenerate(r, o, size, mode)
+		}
 		hist = append(hist, o)
 		res := env.Exec(o)
 		if fatalRes(res) {
